@@ -43,7 +43,14 @@ class Sandbox:
         return os.path.join(self.base, "var")
 
     def decoy_state(self):
-        return [(p, open(p).read() if os.path.exists(p) else None) for p in self.decoys]
+        out = []
+        for p in self.decoys:
+            try:
+                with open(p, "rb") as fp:
+                    out.append((p, fp.read()))
+            except OSError as ex:   # removed, replaced by a directory, ...
+                out.append((p, type(ex).__name__))
+        return out
 
     def write_config(self, lines, settings=None):
         st = {"base_path": self.base, "nthreads": "4", "_autoclean": "1", "uvloop": "0", "slow_rate_protection": "off",
